@@ -1854,6 +1854,141 @@ let db_remove_allocs d k =
           | RmReplaced (_, e) -> ev_allocs e)))
   | None -> Ok O
 
+(** val blocks : sizes -> node -> z list **)
+
+let rec blocks sz = function
+| Leaf (_, k, v) -> (leaf_size sz k v) :: []
+| Inode (c, _, ch) ->
+  (sz_of sz c) :: (let rec bl = function
+                   | [] -> []
+                   | p :: l' -> let (_, c') = p in app (blocks sz c') (bl l')
+                   in bl ch)
+
+(** val db_blocks : sizes -> db -> z list **)
+
+let db_blocks sz d =
+  match d.root with
+  | Some n -> blocks sz n
+  | None -> []
+
+(** val ev_ins_allocs : sizes -> ev -> z list -> z list -> z list **)
+
+let ev_ins_allocs sz e k v =
+  (leaf_size sz k v) :: (match e with
+                         | ELeafSplit -> sz.sz4 :: []
+                         | EPrefixSplit -> sz.sz4 :: []
+                         | EGrow c -> (sz_of sz c) :: []
+                         | _ -> [])
+
+(** val ev_ins_frees : sizes -> ev -> z list **)
+
+let ev_ins_frees sz = function
+| EGrow c -> (sz_of sz (smaller c)) :: []
+| _ -> []
+
+(** val ev_rem_allocs : sizes -> ev -> z list **)
+
+let ev_rem_allocs sz = function
+| EShrink c -> (match c with
+                | C4 -> []
+                | _ -> (sz_of sz (smaller c)) :: [])
+| _ -> []
+
+(** val ev_rem_frees : sizes -> ev -> z list -> z list -> z list **)
+
+let ev_rem_frees sz e k v =
+  (leaf_size sz k v) :: (match e with
+                         | EShrink c -> (sz_of sz c) :: []
+                         | _ -> [])
+
+(** val insert_event : db -> z list -> z list -> ev option **)
+
+let insert_event d k v =
+  match d.root with
+  | Some n ->
+    (match insert_go (fuel_for k) n k v d.next_id O with
+     | Ok a ->
+       (match a with
+        | Some p -> let (_, e) = p in Some e
+        | None -> None)
+     | Err _ -> None)
+  | None -> Some ERootLeaf
+
+(** val remove_event : db -> z list -> (ev * (z list * z list)) option **)
+
+let remove_event d k =
+  match d.root with
+  | Some n ->
+    (match n with
+     | Leaf (_, lk, lv) ->
+       (match lex_compare k lk with
+        | Eq -> Some (ERemoveRoot, (lk, lv))
+        | _ -> None)
+     | Inode (_, _, _) ->
+       (match get_go (fuel_for k) n k O with
+        | Ok a ->
+          (match a with
+           | Some p ->
+             let (_, v) = p in
+             (match remove_go (fuel_for k) n k O with
+              | Ok a0 ->
+                (match a0 with
+                 | RmNotFound -> None
+                 | RmReplaced (_, e) -> Some (e, (k, v)))
+              | Err _ -> None)
+           | None -> None)
+        | Err _ -> None))
+  | None -> None
+
+(** val ins_allocs : sizes -> db -> z list -> z list -> z list **)
+
+let ins_allocs sz d k v =
+  match insert_event d k v with
+  | Some e -> ev_ins_allocs sz e k v
+  | None -> []
+
+(** val ins_frees : sizes -> db -> z list -> z list -> z list **)
+
+let ins_frees sz d k v =
+  match insert_event d k v with
+  | Some e -> ev_ins_frees sz e
+  | None -> []
+
+(** val rem_allocs : sizes -> db -> z list -> z list **)
+
+let rem_allocs sz d k =
+  match remove_event d k with
+  | Some p -> let (e, _) = p in ev_rem_allocs sz e
+  | None -> []
+
+(** val rem_frees : sizes -> db -> z list -> z list **)
+
+let rem_frees sz d k =
+  match remove_event d k with
+  | Some p -> let (e, p0) = p in let (lk, lv) = p0 in ev_rem_frees sz e lk lv
+  | None -> []
+
+(** val live_remove_one : z -> z list -> z list option **)
+
+let rec live_remove_one x = function
+| [] -> None
+| y :: l' ->
+  if Z.eqb x y
+  then Some l'
+  else (match live_remove_one x l' with
+        | Some r -> Some (y :: r)
+        | None -> None)
+
+(** val free_all : z list -> z list -> z list option **)
+
+let rec free_all fs l =
+  match fs with
+  | [] -> Some l
+  | f :: fs' ->
+    (match live_remove_one f l with
+     | Some l' -> free_all fs' l'
+     | None -> None)
+
 type tid = nat
 
 (** val w_is_free : z -> bool **)
